@@ -43,8 +43,8 @@ type side struct {
 	// inflight is the id being submitted right now: SendToTarget has been called and its outcome is not recorded yet
 	// (the message can be delivered to the other application before the sender gets to record it)
 	inflight string
-	opts live.Options
-	init bool
+	opts     live.Options
+	init     bool
 }
 
 func payload(m *quickfix.Message) string { s, _ := m.Body.GetString(58); return s }
